@@ -385,3 +385,15 @@ def _r5(ctx, f):
             ctx.inst("C14.R5", "asset-value[%s,%s]" % (st, rq), True if cell == exp else (None if cell == "mixed" else False),
                      "collateral valuation on a %s bank for %s requirement: %s" % (st, rq, exp), cell, f.loc(f.raw["span"]))
     ctx.tables["reduce_only_valuation"] = table
+
+
+_run_pre_leaves = run
+
+
+def run(ctx):
+    from .kernels import check_leaves
+    try:
+        _run_pre_leaves(ctx)
+    finally:
+        # leaf helpers this property's rules treat by name, pinned as complete path tables
+        check_leaves(ctx, "C14.K", ['panic_cache.update'])
